@@ -207,7 +207,7 @@ def gen_case(rng, tier):
         [[list(e), rand_value(rng, defaults, e)] for e in FEXPS if rng.random() < 0.6]
     refs = [{sexp.dumps(k): v for k, v in root}]
     ops = []
-    long_chain = rng.random() < (0.25 if tier == "quick" else 0.35)
+    long_chain = rng.random() < (0.5 if bl == "20" else 0.25)
     n_ops = rng.randint(25, 70) if long_chain else rng.randint(4, 30)
     p_child = 0.8 if long_chain else 0.5
     p_last = 0.9 if long_chain else rng.choice([0.3, 0.6, 0.9])
@@ -216,6 +216,16 @@ def gen_case(rng, tier):
     def pick():
         return len(refs) - 1 if rng.random() < p_last else rng.randrange(len(refs))
 
+    if long_chain and creates and rng.random() < 0.5:
+        # a straight chain first, long enough to pass the limit 20, with no call that condenses on the way
+        for _ in range(rng.randint(21, 45)):
+            i = len(refs) - 1
+            u = rand_update(rng, defaults, refs[i])
+            ops.append(["child", str(i), u])
+            refs.append({**refs[i], **{sexp.dumps(k): v for k, v in u}})
+            if rng.random() < 0.5:
+                ops.append(["shape", str(len(refs) - 1)])
+        n_ops = rng.randint(4, 25)
     for _ in range(n_ops):
         r = rng.random()
         if r < p_child:
